@@ -423,13 +423,18 @@ func parent() {
 	defer os.RemoveAll(base)
 	top := int64(lib.Pick(15, 40))
 	dumpFile, d := buildSource(run, base, top)
+	finish := func() {
+		code := run.Finish()
+		os.RemoveAll(base) // os.Exit skips the deferred removal
+		os.Exit(code)
+	}
 	if d == nil {
-		os.Exit(run.Finish())
+		finish()
 	}
 	c, err := newSrcChain(d)
 	if err != nil {
 		run.Inconclusive("source chain: " + err.Error())
-		os.Exit(run.Finish())
+		finish()
 	}
 	run.Count("source_chain_height", c.top)
 	run.Count("source_validator_set_changes", int64(len(c.changes)))
@@ -449,7 +454,7 @@ func parent() {
 	lib.Parallel(len(scen), 12, func(i int) { runScenario(run, base, dumpFile, scen[i], 0) })
 
 	nm := len(catalogue())
-	run.SetRule(fmt.Sprintf("source chain: a real single-validator node (chain/core.NewNode) follows consensus live for %d heights with contract deployments/calls, key-value and plain txs and administrative requests (add_peer/update_node/remove_node through the Admin contract and precompile 0xfe) that change size, order and powers of the validator set; the syncing node is the same real node with fast_sync=true and a non-validator key in a worker process; its peers are harness peers over TCP. Scenario list fixed by seed and tier: 1 all-honest control; surgical scenarios running episodes (mutation of the catalogue of %d x target height chosen by relation to a validator-set change: at/before/after/far) where the honest peer serves only below the tampered height and one of three malicious peers serves the tampered first block, second block (LastCommit) or forged pair; final scenarios tampering with the last block's LastCommit so that top-1 stays justified; mix scenarios (every malicious answer tampered with probability p, delays, duplicates, unsolicited answers); silent-peer scenarios (15 s pool timeout). Non-trivial = distinct (mutation, position, target height, relation) whose tampered answer was delivered and whose outcome was observed.", top, nm))
+	run.SetRule(fmt.Sprintf("source chain: a real single-validator node (chain/core.NewNode) follows consensus live for %d heights with contract deployments/calls, key-value and plain txs and administrative requests (add_peer/update_node/remove_node through the Admin contract and precompile 0xfe) that change size, order and powers of the validator set (%d changes); the syncing node is the same real node with fast_sync=true and a non-validator key in a worker process (one per scenario); its peers are harness peers over TCP. Scenario list fixed by seed and tier (%d scenarios): 1 all-honest control; surgical scenarios running %d episodes = (mutation of the catalogue of %d) x (target height: quick 3 per mutation chosen by relation to a validator-set change at/before/after/far, thorough every applicable height), where the honest peer serves only below the tampered height and one of three malicious peers serves the tampered first block, second block (LastCommit) or forged pair; final scenarios tampering with the last block's LastCommit so that top-1 stays justified (that commit becomes the seen commit the node switches to consensus with), followed by a rebuild of the node on its directory; mix scenarios (every malicious answer tampered with probability p, delays, duplicates, unsolicited answers); silent-peer scenarios (15 s pool timeout). Non-trivial = distinct (mutation, position, target height, relation) whose tampered answer was delivered and whose outcome was observed.", top, len(c.changes), len(scen), nEp, nm))
 	run.Assume("the reference for 'a node that followed consensus live' is the source node itself: per-height state published by its engine, blocks and application state read through its query interface",
 		"fault model: the harness signs with keys of validators holding < 1/3 of the power, with keys of nobody, and with V0's key only votes V0 can have produced for the same block (prevote); it never signs another block with V0's key",
 		"re-admission to the pool: peers re-announce their height every 25 ms during episodes and every 250 ms (at most 160 times) in the final phase, a stand-in for the node's 10 s status-request ticker; the pool's own timers run in real time",
@@ -473,5 +478,5 @@ func parent() {
 	run.Require("verifier_rejections", int64(nEp)/2)
 	run.Require("mutations_judged", int64(nm*8/10))
 	run.Require("cells", int64(nm*lib.Pick(12, 25)/10))
-	os.Exit(run.Finish())
+	finish()
 }
